@@ -42,7 +42,12 @@ def run(check, an: Analysis):
     check.rule('C', 'trigger coverage for condition classes that park subscribers')
     check.rule('R', 'run(till): single root `async with until(time == till)` starting all '
                     'activities in order')
+    check.rule('K', 'the children of an abandoned block are closed: Task.__close__ finalises '
+                    'every unfinished task, whether it has started running or not (rule '
+                    'shared with C04)')
     an.cls(ISCOPE)
+    from . import c04
+    c04.check_task_close(check, an, 'K')
 
     # ---- P ------------------------------------------------------------------
     aenter = an.callee(ISCOPE, '__aenter__')
